@@ -42,6 +42,30 @@ def _retype(T, dtype):
     return out
 
 
+def _permute_fields(rng, d):
+    """reorder (keys, contents) of every named RecordArray with >= 2 fields in place -> whether anything moved"""
+    moved = False
+    for _p, n in model.walk(d):
+        if n["c"] == "RecordArray" and n.get("keys") is not None and len(n["contents"]) >= 2:
+            order = list(range(len(n["contents"])))
+            rng.shuffle(order)
+            if order != sorted(order):
+                n["keys"] = [n["keys"][i] for i in order]
+                n["contents"] = [n["contents"][i] for i in order]
+                moved = True
+    return moved
+
+
+def _keysorted(v):
+    if isinstance(v, dict):
+        return {k: _keysorted(v[k]) for k in sorted(v)}
+    if isinstance(v, list):
+        return [_keysorted(x) for x in v]
+    if isinstance(v, tuple):
+        return tuple(_keysorted(x) for x in v)
+    return v
+
+
 def gen_case(rng, tier, index):
     if index % 9 == 8:         # the Python-only half of the property (lane P)
         from checks import pstreams
@@ -74,6 +98,8 @@ def gen_case(rng, tier, index):
             n = rng.choice([0, 1, 2, 3, 4])
             vals = gen.gen_values(rng, Ti, n, cfg)
             layouts.append(gen.encode(rng, Ti, vals, "random", cfg))
+            if i > 0 and stream in ("same", "promote") and rng.random() < 0.4 and _permute_fields(rng, layouts[-1]):
+                case["permuted"] = True       # the same record type with its fields stored in another order
         case["T"] = Ts[0]
         case["layout"] = layouts[0]
         case["op"] = {"op": "mergemany", "others": layouts[1:]}
@@ -168,7 +194,12 @@ def run_case(ctx, case):
                                                "operands": [model.brief(x, 150) for x in vs]})
             return
         rel = 1e-6
-        if not model.same(out.value, exp, rel=rel):
+        if case.get("permuted"):
+            ctx.count("operands_with_permuted_record_fields")
+            got_v, exp = _keysorted(out.value), _keysorted(exp)      # fields are matched by name, whatever their order
+        else:
+            got_v = out.value
+        if not model.same(got_v, exp, rel=rel):
             ctx.violation("wrong-value", {"op": {"op": "mergemany"}, "expected": model.brief(exp, 400),
                                           "got": out.brief(), "operands": [model.brief(x, 150) for x in vs]})
             return
